@@ -675,6 +675,24 @@ impl Axecutor {
         self.mem_init_area_named(start, vec![0; length as usize], Some(name))
     }
 
+    /// Next start address to try after an area of `length` bytes did not fit at `start`
+    fn next_anywhere_candidate(&self, start: u64, length: u64) -> Result<u64, AxError> {
+        let next = if length > 0 {
+            start.checked_add(length)
+        } else {
+            // An empty area only fails to fit when `start` lies inside another area: continue
+            // behind that one (advancing by the length would never make progress)
+            self.state
+                .memory
+                .iter()
+                .find(|area| area.contains(start))
+                .and_then(|area| area.start.checked_add(area.length))
+                .or_else(|| start.checked_add(1))
+        };
+
+        next.ok_or_else(|| AxError::from("Could not find a suitable memory start address"))
+    }
+
     /// Initialize a memory area of the given length at a random address.
     /// The start address is returned.
     pub fn mem_init_zero_anywhere(&mut self, length: u64) -> Result<u64, AxError> {
@@ -690,7 +708,7 @@ impl Axecutor {
             if self.mem_init_zero(start, length).is_ok() {
                 break;
             }
-            start += length;
+            start = self.next_anywhere_candidate(start, length)?;
         }
 
         Ok(start)
@@ -719,7 +737,7 @@ impl Axecutor {
             if res.is_ok() {
                 break;
             }
-            start += data.len() as u64;
+            start = self.next_anywhere_candidate(start, data.len() as u64)?;
         }
 
         Ok(start)
